@@ -119,6 +119,16 @@ def valid(spec):
     return True
 
 
+def _scratch():
+    """Per-case scratch directory (under the run's scratch root; a private temp dir for stand-alone replays)."""
+    import os
+    import tempfile
+
+    if os.environ.get("VERIF_SCRATCH"):
+        return worker_scratch().sub()
+    return Path(tempfile.mkdtemp(prefix="mokaverif_replay_"))
+
+
 # ---------------------------------------------------------------------------------------------
 # generator: table + expectation
 # ---------------------------------------------------------------------------------------------
@@ -436,7 +446,7 @@ def check_case(spec, acc):
                               f"{s['workers']}; deviations {dict((k, v) for k, v in spec.items() if k != 'family')}): "
                               f"{msg}", spec, expected, observed), size=complexity(spec))
 
-    work = worker_scratch().sub()
+    work = _scratch()
     try:
         path, expect = write(spec, work)
         neg = s["neg"] != "none"
@@ -457,12 +467,21 @@ def check_case(spec, acc):
                                                          "CHUNK_SIZE_ROWS_FOR_DROP_COLUMNS")})
         if neg:
             what = "missing-required-column-accepted:" + s["neg"][8:] if s["neg"].startswith("missing:") else \
-                "bad-label-accepted:" + s["neg"][6:]
-            viol(what, f"negative case {s['neg']} was parsed without an error"
-                 + (f"; the row labelled {s['neg'][6:]} became target="
-                    f"{observe(ds)['targets'][s['nrows'] // 2]!r}" if s["neg"].startswith("label:") else ""))
+                "bad-label-accepted:" + {"2": "2", "-2": "minus2", "0.5": "one-half"}[s["neg"][6:]]
+            became = ""
+            if s["neg"].startswith("label:"):
+                try:
+                    became = f"; the row labelled {s['neg'][6:]} became target={observe(ds)['targets'][s['nrows'] // 2]!r}"
+                except Exception:
+                    became = ""
+            viol(what, f"negative case {s['neg']} was parsed without an error{became}")
             return "neg_accepted", "accepted"
-        obs = observe(ds)
+        try:
+            obs = observe(ds)
+        except Exception as e:
+            viol("returned-dataset-unreadable:" + type(e).__name__, f"the returned dataset cannot be inspected: "
+                 f"{type(e).__name__}: {e}")
+            return "result_wrong", "unreadable"
         bad = compare(expect, obs, s["nrows"])
         seen = set()
         for sig, msg in bad:
@@ -490,8 +509,12 @@ def worker(item):
 # ---------------------------------------------------------------------------------------------
 # E2: schedules of the read_percolator pool
 # ---------------------------------------------------------------------------------------------
-E2_CASES = [
+E2_QUICK = [
     {"family": "C", "nfeat": 4, "colchunk": 2, "rowchunk": 3, "nan": "two", "workers": 3},
+    {"family": "C", "nfeat": 3, "colchunk": 2, "ids": 4, "nan": "mid", "workers": 2, "fmt": "parquet",
+     "entry": "read_percolator"},
+]
+E2_THOROUGH = E2_QUICK + [
     {"family": "C", "nfeat": 5, "colchunk": 2, "rowchunk": 4, "ids": 4, "nan": "mid", "workers": 3,
      "fmt": "parquet", "entry": "read_percolator"},
     {"family": "C", "nfeat": 7, "colchunk": 3, "rowchunk": 3, "nan": "two", "workers": 3},
@@ -549,7 +572,7 @@ def e2_plan(ctx, spec, bound):
     """Reference (sequential) parse, default schedule and free-running joblib in the parent; the alternatives of the
     default schedule become work items (one subtree each)."""
     acc = ctx.acc
-    work = worker_scratch().sub()
+    work = _scratch()
     try:
         s, expect, body = _e2_setup(spec, work)
         try:
@@ -592,7 +615,7 @@ def e2_plan(ctx, spec, bound):
 def e2_worker(item):
     spec, bound, prefixes, ref_repr, ref = item
     acc = Acc()
-    work = worker_scratch().sub()
+    work = _scratch()
     try:
         s, expect, body = _e2_setup(spec, work)
         on_exec = _e2_on_exec(acc, spec, s, bound, ref_repr, ref)
@@ -647,7 +670,7 @@ def run(ctx):
     save, ctx.seed = ctx.seed, 0  # already rotated
     ctx.pmap(worker, items)
     bound = 1
-    e2, e2_items, infos = (E2_CASES[:2] if ctx.quick else E2_CASES), [], []
+    e2, e2_items, infos = (E2_QUICK if ctx.quick else E2_THOROUGH), [], []
     for c in e2:
         its, info = e2_plan(ctx, c, bound)
         e2_items += its
@@ -672,7 +695,7 @@ def replay(case):
     if "e2" in case:
         spec = case["e2"]
         s = full(spec)
-        work = worker_scratch().sub()
+        work = _scratch()
         try:
             path, expect = write(spec, work)
 
